@@ -60,6 +60,13 @@ class ConcNamer:
     def _auto(self, name, kind):
         r = self.rng
         if kind == "int":
+            if name == "N":
+                from contracts.utils import is_smooth
+                k = r.random() if r else 0.5
+                if k < 0.3:
+                    return r.randint(0, 300)
+                base = r.choice([2, 3, 5, 7]) ** r.randint(1, 12) * r.choice([1, 2, 3, 4, 5, 6, 7, 8, 9, 10])
+                return max(0, base + r.choice([-1, 0, 1]))
             if name.endswith("_N"):
                 return r.choice([0, 1, 2, 3, 5, 8, 13]) if r else 5
             if "_S" in name:
